@@ -255,6 +255,14 @@ class EffectsV(V):
         self.ops: list[tuple[str, Any]] = []
 
 
+class RecurV(V):
+    """A ghost recurrence (dsl.Recurrence) as a callable value."""
+    kind = "recurrence"
+
+    def __init__(self, rec: Any) -> None:
+        self.rec = rec
+
+
 class RefV(V):
     """An opaque heap object: a term of an uninterpreted sort + its descriptor."""
     kind = "ref"
